@@ -103,7 +103,7 @@ func runC02(r *Report) {
 	// recorded condition, so a missed release there is never made up for.
 	if rd := r.FnAnchor("R02h", "rueidis.(*pipe)._backgroundRead"); rd != nil {
 		nSend := 0
-		for _, f := range WithAnons(rd) {
+		for _, f := range WithHelpers(r.P, rd) {
 			for _, s := range Sites(f, func(in ssa.Instruction) bool {
 				sd, ok := in.(*ssa.Send)
 				return ok && strings.Contains(shortType(sd.Chan.Type()), "RedisResult")
